@@ -19,31 +19,38 @@ CLAIM = ('Decided per explored history and fault sequence: the implementation ru
          'number of reports (C19_rot_lost_only_around_failures, C19_rot_loss_is_reported); once the oracle holds no more '
          'failures nothing is reported, every further record is written and rotation follows the fault-free size rule again '
          '(C19_rot_recovery_spec, C19_rot_recovery_run). The analysis behind simr (what a failing rename / create / listing / '
-         'write does) is in Flw/FaultRotSpec.v. With cleanup and the age criteria it is not proved: partial. BUFFERED modes '
-         '(proved, without rotation and with rotation under Numbers naming): for every fault oracle and history of writes, '
-         'flushes, shutdown and drop, file, buffer, error channel (exact codes), remaining oracle and result codes are what the '
-         'executable specification computes (C19_buf_faults_buffered, C19_buf_rot_faults); the file is an in-order subsequence '
-         'of the records, what was written out stays, every operation that loses something reports and met a failing call, a '
-         'failing flush inside a log call loses the incoming record and keeps the buffered ones (C19_buf_loss_bounded, '
-         'C19_buf_accepted, C19_buf_rot_loss_bounded); after the last failure everything is written and nothing more is reported '
-         "(C19_buf_recovery, C19_buf_rot_recovery). The direct-mode statement 'missing records = reported errors' is false for "
-         'buffered modes - a failing final flush loses the whole buffer for two reports (C19_buf_more_lost_than_reported, by a '
-         "counterexample evaluated in Coq) - the proved form is 'every losing operation reports'. DIRECT NAMINGS (proved, direct "
-         'mode, size criterion, every fault oracle and record list): NumbersDirect - directory (with gaps), error codes and '
-         'remaining oracle are what the executable specification simd computes, every call returns normally (C19_numd_faults); a '
-         'record whose own call met no failure is kept, missing records = EWrite reports, ELogFile = a failed rotation open '
-         'whose record was kept in the over-full old file (C19_numd_lost_only_around_failures, C19_numd_loss_is_reported); after '
-         'the last failure everything is written, the numbering continues strictly upwards and no file is overwritten '
-         '(C19_numd_recovery, C19_numd_recovery_ops). Observation: every failed open at a rotation skips a number for good - '
-         'nothing is lost or overwritten, the numbers just have gaps (C19_numd_gap). TimestampsDirect (clock not going '
-         'backwards): the same four statements (C19_tsd_faults, C19_tsd_lost_only_around_failures, C19_tsd_loss_is_reported, '
-         'C19_tsd_recovery; C19_tsd_recovery_ops_partial for arbitrary further operations when no rotation is pending). '
-         'Timestamps naming with rCURRENT (same statements, C19_ts_faults, C19_ts_lost_only_around_failures, '
-         'C19_ts_loss_is_reported, C19_ts_recovery, C19_ts_recovery_ops): a rotation makes four fallible calls (two listings, '
-         'the rename, the open); when the rename succeeds and the open fails the writer keeps the renamed file open, later '
-         'records go there, no rCURRENT exists meanwhile, and the next successful open starts a new rCURRENT - no name is used '
-         'twice, no file overwritten, nothing lost silently (C19_ts_half_failed_rotation). ')
-THEOREMS = ["C19_rot_faults_rotation", "C19_rot_lost_only_around_failures", "C19_rot_loss_is_reported", "C19_rot_recovery_spec", "C19_rot_recovery_run", "C19_faults_norotation", "C19_lost_only_failed", "C19_recovery", "C19_no_fault_no_failure", "C19_failed_write_no_effect", "C19_buf_faults_buffered", "C19_buf_loss_bounded", "C19_buf_accepted", "C19_buf_recovery", "C19_buf_more_lost_than_reported", "C19_buf_rot_faults", "C19_buf_rot_loss_bounded", "C19_buf_rot_recovery", "C19_numd_faults", "C19_numd_lost_only_around_failures", "C19_numd_loss_is_reported", "C19_numd_recovery", "C19_numd_recovery_ops", "C19_numd_gap", "C19_tsd_faults", "C19_tsd_lost_only_around_failures", "C19_tsd_loss_is_reported", "C19_tsd_recovery", "C19_tsd_recovery_ops_partial", "C19_buf_step", "C19_buf_rot_step", "C19_ts_faults", "C19_ts_faults_state", "C19_ts_lost_only_around_failures", "C19_ts_loss_is_reported", "C19_ts_recovery", "C19_ts_recovery_ops", "C19_ts_half_failed_rotation"]
+         'write does) is in Flw/FaultRotSpec.v. With the age criteria, and cleanup under other namings than Numbers, it is not '
+         'proved: partial. BUFFERED modes (proved, without rotation and with rotation under Numbers naming): for every fault '
+         'oracle and history of writes, flushes, shutdown and drop, file, buffer, error channel (exact codes), remaining oracle '
+         'and result codes are what the executable specification computes (C19_buf_faults_buffered, C19_buf_rot_faults); the '
+         'file is an in-order subsequence of the records, what was written out stays, every operation that loses something '
+         'reports and met a failing call, a failing flush inside a log call loses the incoming record and keeps the buffered '
+         'ones (C19_buf_loss_bounded, C19_buf_accepted, C19_buf_rot_loss_bounded); after the last failure everything is written '
+         "and nothing more is reported (C19_buf_recovery, C19_buf_rot_recovery). The direct-mode statement 'missing records = "
+         "reported errors' is false for buffered modes - a failing final flush loses the whole buffer for two reports "
+         "(C19_buf_more_lost_than_reported, by a counterexample evaluated in Coq) - the proved form is 'every losing operation "
+         "reports'. DIRECT NAMINGS (proved, direct mode, size criterion, every fault oracle and record list): NumbersDirect - "
+         'directory (with gaps), error codes and remaining oracle are what the executable specification simd computes, every '
+         'call returns normally (C19_numd_faults); a record whose own call met no failure is kept, missing records = EWrite '
+         'reports, ELogFile = a failed rotation open whose record was kept in the over-full old file '
+         '(C19_numd_lost_only_around_failures, C19_numd_loss_is_reported); after the last failure everything is written, the '
+         'numbering continues strictly upwards and no file is overwritten (C19_numd_recovery, C19_numd_recovery_ops). '
+         'Observation: every failed open at a rotation skips a number for good - nothing is lost or overwritten, the numbers '
+         'just have gaps (C19_numd_gap). TimestampsDirect (clock not going backwards): the same four statements (C19_tsd_faults, '
+         'C19_tsd_lost_only_around_failures, C19_tsd_loss_is_reported, C19_tsd_recovery; C19_tsd_recovery_ops_partial for '
+         'arbitrary further operations when no rotation is pending). Timestamps naming with rCURRENT (same statements, '
+         'C19_ts_faults, C19_ts_lost_only_around_failures, C19_ts_loss_is_reported, C19_ts_recovery, C19_ts_recovery_ops): a '
+         'rotation makes four fallible calls (two listings, the rename, the open); when the rename succeeds and the open fails '
+         'the writer keeps the renamed file open, later records go there, no rCURRENT exists meanwhile, and the next successful '
+         'open starts a new rCURRENT - no name is used twice, no file overwritten, nothing lost silently '
+         '(C19_ts_half_failed_rotation). WITH A CLEANUP STRATEGY (proved, Numbers naming, direct mode, size criterion, every '
+         'fault oracle and record list, all three strategies): directory, error codes and remaining oracle are what the '
+         'executable specifications simk / simg compute, every call returns normally (C19_cleanup_*, C19_gz_*: faults in '
+         'read_dir, remove, and the five calls of a compression); a failure inside the cleanup at a rotation never loses a '
+         'record - it can only leave more files than the limit, possibly with gaps in the numbers or an archive next to its '
+         'original -, at the initialisation it loses the record being written, reported with EWrite; once the oracle is '
+         'exhausted the next rotation restores the limits. ')
+THEOREMS = ["C19_rot_faults_rotation", "C19_rot_lost_only_around_failures", "C19_rot_loss_is_reported", "C19_rot_recovery_spec", "C19_rot_recovery_run", "C19_faults_norotation", "C19_lost_only_failed", "C19_recovery", "C19_no_fault_no_failure", "C19_failed_write_no_effect", "C19_buf_faults_buffered", "C19_buf_loss_bounded", "C19_buf_accepted", "C19_buf_recovery", "C19_buf_more_lost_than_reported", "C19_buf_rot_faults", "C19_buf_rot_loss_bounded", "C19_buf_rot_recovery", "C19_numd_faults", "C19_numd_lost_only_around_failures", "C19_numd_loss_is_reported", "C19_numd_recovery", "C19_numd_recovery_ops", "C19_numd_gap", "C19_tsd_faults", "C19_tsd_lost_only_around_failures", "C19_tsd_loss_is_reported", "C19_tsd_recovery", "C19_tsd_recovery_ops_partial", "C19_buf_step", "C19_buf_rot_step", "C19_ts_faults", "C19_ts_faults_state", "C19_ts_lost_only_around_failures", "C19_ts_loss_is_reported", "C19_ts_recovery", "C19_ts_recovery_ops", "C19_ts_half_failed_rotation", "C19_cleanup_faults", "C19_cleanup_lost_only_around_failures", "C19_cleanup_loss_is_reported", "C19_cleanup_fault_loses_no_record", "C19_cleanup_init_fault_loses_record", "C19_cleanup_limit_restored", "C19_cleanup_recovery_spec", "C19_gz_faults", "C19_gz_lost_only_around_failures", "C19_gz_loss_is_reported", "C19_gz_cleanup_fault_loses_no_record", "C19_gz_limit_restored"]
 TRUSTED = ["modelled, not verified: which calls can fail and how the code reacts is tied by the correspondence; injected failures are "
            "io::ErrorKind::Other returned before the call (the call is then not made); BufWriter keeps unwritten bytes on a failed flush"]
 ASSUMPTIONS = ["failures are injected at the hook points (immediately before each file-system call), never in the middle of a call"]
